@@ -48,7 +48,7 @@ RULE = ("rw: every program of the fprog declaration corpus (feature sets of size
         "16-entity pool x every insertion order x {routine, module} table; scp: "
         "every subset of {module, routine, loop body, if body, else body} x {x, x_1} "
         "(thorough: + {routine, loop body, if body} x {x_2}) as symbol placements; bfs: every history of <= depth_full "
-        "operations of the full alphabet (24 transformations x every matching node) "
+        "operations of the full alphabet (22 transformations x every matching node) "
         "and <= depth_core operations of the core alphabet on 12 seeds, a history "
         "being extended only by operations the real apply() accepted on the "
         "colliding variant, states de-duplicated on sha1(view() + written text); "
